@@ -13,6 +13,48 @@ TEMPLATES = ["tuple", "list", "rgb", "hsl", "rgba", "rgba_tuple", "hsla", "hex6"
 HEX_CONCRETE = {"hex6": "#767676", "hex3": "#abc", "named": "slategray"}
 
 
+class LazyValue:
+    """the result of a pure function call, computed on first use"""
+
+    def __init__(self, fn, a, k):
+        self._c = (fn, a, k)
+        self._v = None
+
+    def force(self):
+        if self._c is not None:
+            fn, a, k = self._c
+            self._v = fn(*a, **k)
+            self._c = None
+        return self._v
+
+    def __eq__(self, o):
+        return self.force() == o
+
+    def __ne__(self, o):
+        return self.force() != o
+
+    def __hash__(self):
+        return hash(self.force())
+
+    def __str__(self):
+        return str(self.force())
+
+    def __repr__(self):
+        return repr(self.force())
+
+    def __format__(self, spec):
+        return format(self.force(), spec)
+
+    def __bool__(self):
+        return bool(self.force())
+
+    def __contains__(self, x):
+        return x in self.force()
+
+    def __getattr__(self, n):
+        return getattr(self.force(), n)
+
+
 class Api:
     """loads the modules, installs the stubs for one configuration"""
 
@@ -68,8 +110,11 @@ class Api:
         else:
             self._rec_stub = None
         m.optimisation.calculate_delta_e_2000 = st.delta_e
-        # the WCAG level of the tuned colour is computed and discarded by check_and_fix_contrast (a local): no forks for it
-        m.optimisation.get_wcag_level = lambda *a, **k: "AA"
+        # the WCAG level of the tuned colour is computed and (in the pinned code) discarded by check_and_fix_contrast:
+        # evaluate the REAL function lazily -- only if the value is ever looked at (it is a pure function, so deferring
+        # the call does not change its result) -- so that an unused level costs no forks and a used one is exact
+        real_level = m.optimisation.get_wcag_level
+        m.optimisation.get_wcag_level = lambda *a, **k: LazyValue(real_level, a, k)
         # hex output cannot carry symbolic digits: the formatter is a token whose meaning is the colour (lemma C06.4)
         m.conversions.rgb_to_hex = self.hex_stub
         # hsl() output: the emitted string reads back as its argument (C06.2, proved there on the real formatter)
